@@ -233,3 +233,137 @@ func (w *World) findInboxRoles() *inboxRoles {
 	inboxRolesCache[w] = p
 	return p
 }
+
+// checkNoGoroutinesInMachine: the process machine and the inbox start no goroutine of their own (the only
+// asynchronous hand-off is Scheduler.Schedule, guarded by the token), and funcReceiver calls its function inline.
+func checkNoGoroutinesInMachine(w *World, r *Report, rule string) {
+	var bad []string
+	n := 0
+	for _, typ := range []string{"process", "Inbox", "funcReceiver", "Registry", "eventStream"} {
+		for _, fn := range w.MethodsOf("actor", typ) {
+			n++
+			for _, b := range fn.Blocks {
+				for _, in := range b.Instrs {
+					if g, ok := in.(*ssa.Go); ok {
+						bad = append(bad, fname(fn)+" at "+w.pos(g.Pos()))
+					}
+				}
+			}
+		}
+	}
+	r.Check(len(bad) == 0 && n > 10, rule, "machine:no-go-statement", "no method of process, Inbox, funcReceiver, Registry or eventStream starts a goroutine", w.fnPos(w.Method("actor", "process", "Invoke")),
+		"a `go` statement in the delivery machinery ("+strings.Join(bad, ", ")+"): deliveries of one actor can overlap and lose their order")
+	fr := w.Method("actor", "funcReceiver", "Receive")
+	if fr == nil {
+		r.Unknown(rule, "funcReceiver.Receive", "function receivers", "-", "not found")
+		return
+	}
+	g := w.FG(fr)
+	calls := make([]bool, len(g.ins))
+	for i, in := range g.ins {
+		if c, ok := in.(*ssa.Call); ok && c.Call.StaticCallee() == nil && !c.Call.IsInvoke() && w.pathOf(c.Call.Value) == "P0.f" && len(c.Call.Args) == 1 && w.pathOf(c.Call.Args[0]) == "P1" {
+			calls[i] = true
+		}
+	}
+	r.Check(g.Once(calls), rule, "funcReceiver.Receive:inline", "a function receiver calls its function once, synchronously, with the Context it was given", w.fnPos(fr),
+		"SpawnFunc actors run their handler zero times, twice, or on another goroutine")
+}
+
+// checkInboxStopStores: Inboxer.Stop really closes the inbox.
+func checkInboxStopStores(w *World, r *Report, rule string) {
+	ir := w.findInboxRoles()
+	if roleProblems(r, rule, ir) {
+		return
+	}
+	g := w.FG(ir.stop)
+	st := make([]bool, len(g.ins))
+	for _, op := range ir.ops {
+		if op.fn == ir.stop && op.kind != "Load" && op.new == ir.stopped {
+			st[op.node] = true
+		}
+	}
+	r.Check(g.AfterEntry(st), rule, fname(ir.stop)+":stores-stopped", "Inbox.Stop stores the 'stopped' status on every path", w.fnPos(ir.stop),
+		"Stop leaves the status untouched: the worker keeps consuming after the actor was cleaned up (messages after Stopped)")
+}
+
+// checkSchedulerAsync: the scheduler hands the worker to another goroutine.
+func checkSchedulerAsync(w *World, r *Report, rule string) {
+	n := 0
+	for _, fn := range w.Funcs {
+		if !w.isLib(fn) || fn.Signature.Recv() == nil || fn.Name() != "Schedule" || fn.Synthetic != "" || len(fn.Params) != 2 {
+			continue
+		}
+		n++
+		async := false
+		sync := false
+		for _, b := range fn.Blocks {
+			for _, in := range b.Instrs {
+				if c := callOf(in); c != nil && c.Value == ssa.Value(fn.Params[1]) {
+					if _, isGo := in.(*ssa.Go); isGo {
+						async = true
+					} else {
+						sync = true
+					}
+				}
+			}
+		}
+		r.Check(async && !sync, rule, fname(fn)+":async", "the scheduler runs the worker on its own goroutine", w.fnPos(fn),
+			"the worker runs on the sender's goroutine: Send does not return before the receiver's handlers have run (a handler that waits for the sender deadlocks)")
+	}
+	if n == 0 {
+		r.Unknown(rule, "Scheduler:async", "a Scheduler implementation", "-", "none found")
+	}
+}
+
+// checkOptionStores: option functions store what they are given.
+func checkOptionStores(w *World, r *Report, rule, opt, field, want string) {
+	fn := w.Func("actor", opt)
+	if fn == nil || len(fn.AnonFuncs) != 1 {
+		r.Unknown(rule, opt, "actor."+opt+" returns one option closure", "-", "not found")
+		return
+	}
+	cf := fn.AnonFuncs[0]
+	g := w.FG(cf)
+	st := make([]bool, len(g.ins))
+	got := ""
+	for i, in := range g.ins {
+		if s, ok := in.(*ssa.Store); ok {
+			if fa, ok := s.Addr.(*ssa.FieldAddr); ok {
+				if name, _ := fieldName(fa); name == field {
+					got = w.pathOf(s.Val)
+					if matchArg(want, got) {
+						st[i] = true
+					}
+				}
+			}
+		}
+	}
+	r.Check(g.Once(st), rule, opt+":stores", opt+" sets Opts."+field+" from its argument on every path", w.fnPos(fn), "Opts."+field+" is set to "+got+" (or not at all)")
+}
+
+// checkStartClearsBuffer: once replayed, the restart buffer is emptied (a later crash in Started must not replay it again).
+func checkStartClearsBuffer(w *World, r *Report, rule string) {
+	pr := w.findProcRoles()
+	if pr.fail(r, rule) {
+		return
+	}
+	g := w.FG(pr.start)
+	clr := make([]bool, len(g.ins))
+	for i, in := range g.ins {
+		if st, ok := in.(*ssa.Store); ok {
+			if fa, ok := st.Addr.(*ssa.FieldAddr); ok && isFieldOf(fa, pr.procT, "mbuffer") {
+				if c, isK := st.Val.(*ssa.Const); isK && c.IsNil() {
+					clr[i] = true
+				}
+			}
+		}
+	}
+	ok := anyOf(clr)
+	for _, ci := range w.callsIn(pr.start, EvCall("Invoke", pr.invoke)) {
+		if !g.After(g.idx[ci.(ssa.Instruction)], clr) {
+			ok = false
+		}
+	}
+	r.Check(ok, rule, fname(pr.start)+":clears-replayed-buffer", "after the replay Start empties the restart buffer on every path", w.fnPos(pr.start),
+		"the replayed messages stay buffered: a later crash inside Initialized/Started replays them a second time")
+}
